@@ -599,7 +599,16 @@ class GenericPlainRegistry(Generic[QuantityT, UnitT], metaclass=RegistryMeta):
 
     def _add_alias(self, definition: AliasDefinition) -> None:
         unit_dict = self._units
-        unit = unit_dict[definition.name]
+        name = definition.name
+        if name not in unit_dict:
+            # A prefixed unit is registered on first use, and whether it has been
+            # used already depends on how the definitions were loaded (a registry
+            # read from the disk cache has not walked them): register it now.
+            try:
+                name = self.get_name(name)
+            except UndefinedUnitError:
+                pass
+        unit = unit_dict[name]
         while not isinstance(unit, UnitDefinition):
             unit = unit_dict[unit.name]
         for alias in definition.aliases:
